@@ -551,6 +551,21 @@ impl Sys {
                 let r = cm.cas_repo_sync_single(&h(ca), 0, krill)?;
                 Ok(format!("ok:{r}"))
             }
+            // The operator moves the CA to another repository (here: a remote one that cannot be reached): a key roll
+            // with the new key in the new repository starts; until it is finished the current key and everything it
+            // signs stay in the old repository (`old_repo` of the key), which is not yet a deprecated one.
+            ["repomigrate", ca] => {
+                let c = cm.get_ca(&h(ca))?;
+                let mut remote = c.repository_contact()?.clone();
+                remote.repo_info = rpki::ca::idexchange::RepoInfo::new(
+                    rpki::uri::Rsync::from_string(format!("rsync://remote.example.net/repo/{ca}/")).unwrap(),
+                    Some(rpki::uri::Https::from_string("https://remote.example.net/rrdp/notification.xml".to_string()).unwrap()),
+                );
+                remote.server_info.service_uri = rpki::ca::idexchange::ServiceUri::Https(
+                    rpki::uri::Https::from_string(format!("https://localhost:1/rfc8181/{ca}/")).unwrap());
+                cm.update_repo(h(ca), remote, false, actor, krill)?;
+                Ok("ok".into())
+            }
             // C09: are the store-wide recurring maintenance tasks in the queue (pending or running)?
             ["recurring"] => {
                 let missing: Vec<&str> = [("republish", "all_cas_republish_if_needed"), ("renew", "all_cas_renew_objects_if_needed"),
